@@ -104,7 +104,7 @@ def cover(true_classes, all_classes):
     if len(blocks) < 4:
         raise RuntimeError("C17Cover.v: unexpected output: " + r.text[-1500:])
     strs = lambda b: re.findall(r'"([^"]*)"', b)
-    m = re.search(r"\((\d+),\s*(\d+),\s*(true|false)\)", blocks[3][0])
+    m = re.search(r"\(\s*(\d+)\s*,\s*(\d+)\s*,\s*(true|false)\s*\)", blocks[3][0])
     return {"missing": strs(blocks[0][0]), "unknown": strs(blocks[1][0]), "expected": strs(blocks[2][0]),
             "n": int(m.group(1)), "unnamed": int(m.group(2)), "nodup": m.group(3) == "true", "proved": r.ok, "text": r.text[-800:]}
 
